@@ -1,3 +1,5 @@
+import Driver.C02
+import PmtilesModel.Model.Finalize
 import PmtilesModel.Model.Convert
 import PmtilesModel.Model.Finalize
 import PmtilesModel.Spec.ReaderSpec
@@ -90,6 +92,17 @@ def handle (ts : List String) : Option String :=
     let ids := adds.map (·.1)
     let tt := match fmt with | "pbf" => 1 | "png" => 2 | "jpg" => 3 | "webp" => 4 | "avif" => 5 | _ => 0
     some s!"{out} T {tt} Z {TileId.goZoom (ids.headD 0)} {TileId.goZoom (ids.getLastD 0)} CL 1"
+  | "zoomdef" :: cz :: clon :: clat :: b1 :: b2 :: b3 :: b4 :: "E" :: rest => do
+    -- `setZoomCenterDefaults` on a header with this center/bounds and these entries
+    let ns ← [cz, clon, clat, b1, b2, b3, b4].mapM String.toInt?
+    match ns with
+    | [cz, clon, clat, b1, b2, b3, b4] =>
+      let h0 ← Driver.C02.hdrOfFields [3,0,0,0,0,0,0,0,0,0,0,0, 0, 1, 1, 1, 0, 0, b1, b2, b3, b4, cz, clon, clat]
+      let (es, _) ← parseEntries rest
+      if es.isEmpty then some "no-entries" else
+      let h := Pm.Finalize.setZoomCenterDefaults h0 es
+      some s!"{h.minZoom} {h.maxZoom} {h.centerZoom} {h.centerLonE7} {h.centerLatE7}"
+    | _ => none
   | "cluster" :: d :: _ic :: _tt :: _tc :: datahex :: nd :: rest => do
     let data ← hexToBytes datahex
     let nd ← nd.toNat?
